@@ -15,9 +15,12 @@ func init() { runners["C20"] = runC20 }
 
 type c20Case struct {
 	Client bool     `json:"client"`
-	Ops    []string `json:"ops"`  // write | read | ping | closeread | netconn | abandon-reader | abandon-writer
-	End    string   `json:"end"`  // close | closenow | peer-close | proto-error | ctx-expiry | transport-failure
+	Ops    []string `json:"ops"`  // write | read | ping | closeread | netconn | abandon-reader | abandon-writer | peer-data
+	End    string   `json:"end"`  // close | closenow | peer-close | proto-error | ctx-expiry | transport-failure | close-in-background
 	Then   string   `json:"then"` // close | closenow : the call after which no goroutine may remain
+	// EchoDelayMs: the peer answers a Close frame only after this long (a close handshake is then still
+	// in progress when the final call is made)
+	EchoDelayMs int `json:"echo_delay_ms,omitempty"`
 }
 
 // libGoroutines counts goroutines started by the library that are still alive.
@@ -65,6 +68,7 @@ func runC20Case(cc c20Case) (string, string) {
 			case 9:
 				peer.writeFrame(RawFrame{Fin: true, Op: 10, Payload: f.Payload})
 			case 8:
+				time.Sleep(time.Duration(cc.EchoDelayMs) * time.Millisecond)
 				peer.writeFrame(RawFrame{Fin: true, Op: 8, Payload: f.Payload})
 			}
 		}
@@ -115,6 +119,10 @@ func runC20Case(cc c20Case) (string, string) {
 				peer.writeFrame(RawFrame{Fin: false, Op: 2, Payload: []byte("partial")})
 				c.Reader(octx) // never read
 			}
+		case "peer-data":
+			// a data message nobody asked for: after CloseRead it makes the CloseRead goroutine close the connection
+			peer.writeFrame(RawFrame{Fin: true, Op: 1, Payload: []byte("unsolicited")})
+			time.Sleep(10 * time.Millisecond)
 		case "abandon-writer":
 			if w, err := c.Writer(octx, websocket.MessageText); err == nil {
 				w.Write([]byte("unfinished")) // never closed
@@ -129,6 +137,10 @@ func runC20Case(cc c20Case) (string, string) {
 		c.Close(websocket.StatusNormalClosure, "")
 	case "closenow":
 		c.CloseNow()
+	case "close-in-background":
+		// another goroutine is in the middle of Close (waiting for the peer's echo) when the final call is made
+		go c.Close(websocket.StatusNormalClosure, "")
+		time.Sleep(30 * time.Millisecond)
 	case "peer-close":
 		peer.writeFrame(RawFrame{Fin: true, Op: 8, Payload: []byte{0x03, 0xe8}})
 		if !closeRead && readerRunning == nil {
@@ -186,18 +198,21 @@ func runC20Case(cc c20Case) (string, string) {
 }
 
 func genC20(rng *rand.Rand) c20Case {
-	ops := []string{"write", "read", "ping", "closeread", "netconn", "abandon-reader", "abandon-writer"}
-	ends := []string{"close", "closenow", "peer-close", "proto-error", "ctx-expiry", "transport-failure"}
+	ops := []string{"write", "read", "ping", "closeread", "netconn", "abandon-reader", "abandon-writer", "peer-data"}
+	ends := []string{"close", "closenow", "peer-close", "proto-error", "ctx-expiry", "transport-failure", "close-in-background"}
 	cc := c20Case{Client: rng.Intn(2) == 0, End: ends[rng.Intn(len(ends))], Then: []string{"close", "closenow"}[rng.Intn(2)]}
 	for n := rng.Intn(5); n > 0; n-- {
 		cc.Ops = append(cc.Ops, ops[rng.Intn(len(ops))])
+	}
+	if rng.Intn(5) == 0 {
+		cc.EchoDelayMs = 250 + rng.Intn(150)
 	}
 	return cc
 }
 
 func runC20(ctx *runCtx) {
 	rep := ctx.rep
-	rep.Rule = "histories of 0..4 operations from {write, read, ping, CloseRead, NetConn, abandoned Reader, abandoned Writer} ended by {Close, CloseNow, peer Close, protocol error, context expiry, transport failure} and followed by Close or CloseNow, both roles, run one at a time; " +
+	rep.Rule = "histories of 0..4 operations from {write, read, ping, CloseRead, NetConn, abandoned Reader, abandoned Writer} ended by {Close, CloseNow, peer Close, protocol error, context expiry, transport failure, a Close still running in another goroutine} and followed by Close or CloseNow, both roles, the peer echoing Close frames at once or after 250-400 ms (a close handshake is then in progress during the final call), also after CloseRead + an unsolicited data message; run one at a time; " +
 		"oracle: the number of live goroutines whose stack is in Conn.timeoutLoop or the CloseRead goroutine is not higher after the final call returned than before the connection was created. distinct = history"
 	if ctx.replay != "" {
 		var cc c20Case
@@ -222,6 +237,15 @@ func runC20(ctx *runCtx) {
 			for _, op := range []string{"closeread", "abandon-reader", "abandon-writer", "ping"} {
 				cases = append(cases, c20Case{Client: len(cases)%2 == 0, Ops: []string{op}, End: e, Then: t})
 			}
+		}
+	}
+	// a close handshake still in progress (slow echo) when the final call is made: started by another
+	// Close, or by the CloseRead goroutine after an unsolicited data message
+	for _, t := range []string{"close", "closenow"} {
+		for _, client := range []bool{true, false} {
+			cases = append(cases, c20Case{Client: client, End: "close-in-background", Then: t, EchoDelayMs: 400})
+			cases = append(cases, c20Case{Client: client, Ops: []string{"closeread", "peer-data"}, End: "closenow", Then: t, EchoDelayMs: 400})
+			cases = append(cases, c20Case{Client: client, Ops: []string{"closeread", "peer-data"}, End: "close-in-background", Then: t, EchoDelayMs: 400})
 		}
 	}
 	for i := 0; i < n; i++ {
